@@ -6,6 +6,8 @@
 // ASan (double free / use after free) and LSan (leak) judge every history.
 #include "../harness/rc_glue.hpp"
 #include "../harness/addrcore.hpp"
+#include "../harness/pristine.hpp"
+#include <set>
 
 using namespace vf;
 extern "C" const vapi dflt_api;
@@ -33,17 +35,49 @@ static std::vector<Op> dec(const std::string &c) {
     return ops;
 }
 
+static bool eq(const v_outcome &x, const v_outcome &y);
+static Pristine PR;   // outcomes from a process that never validated anything before: hidden process-wide state is history too
 static bool eq(const v_outcome &x, const v_outcome &y) {
     return x.ret == y.ret && x.errcode == y.errcode && x.rc == y.rc && x.idn_rc == y.idn_rc && x.is_ipv4 == y.is_ipv4 && x.is_ipv6 == y.is_ipv6 && x.is_domain == y.is_domain &&
            x.has_result == y.has_result && x.errstr_null == y.errstr_null && strcmp(x.errstr, y.errstr) == 0;
 }
 static std::map<std::string, v_outcome> g_cache;
-static v_outcome fresh(int mode, int tld, int allow, const Bytes &addr) {
+static v_outcome fresh(int mode, int tld, int allow, const Bytes &addr, bool nocache = false) {
     std::string key = std::to_string(mode) + "/" + std::to_string(tld) + "/" + std::to_string(allow) + "/" + addr;
-    auto it = g_cache.find(key); if (it != g_cache.end()) return it->second;
+    if (!nocache) { auto it = g_cache.find(key); if (it != g_cache.end()) return it->second; }
     Obj o(A); o.configure(mode, tld, allow); v_outcome x = o.is_email(addr);
     if (g_cache.size() > 20000) g_cache.clear();
     return g_cache[key] = x;
+}
+
+// Everything this worker process has validated so far (distinct settings+address, in order).  When an outcome differs
+// from the pristine one and the current history alone does not explain it, the state was left behind by an earlier
+// case of this process: the culprit is looked up here so that the reported history is self-contained and replays.
+static std::vector<PItem> g_log, g_poisons;
+static std::set<std::string> g_logkeys;
+static void log_item(const PItem &it) {
+    if (g_log.size() >= 100000) return;
+    std::string key = std::to_string(it.mode) + "/" + std::to_string(it.tld) + "/" + std::to_string(it.allow) + "/" + it.addr;
+    if (g_logkeys.insert(key).second) g_log.push_back(it);
+}
+static std::string ops_for(const std::vector<PItem> &seq) {
+    K k(A); static const char *M[] = {"EAV_RFC_822", "EAV_RFC_5321", "EAV_RFC_5322", "EAV_RFC_6531"};
+    std::string s = "ops=S";
+    for (auto &it : seq) s += ";R" + std::to_string(k(M[it.mode])) + ";T" + std::to_string(it.tld) + ";A" + std::to_string(it.allow) + ";S;Ex" + hexs(it.addr);
+    return s;
+}
+// returns a case string that reproduces "probe's outcome != pristine outcome pz" from a new process, or "" if none was found
+static std::string self_contained(const std::vector<PItem> &hist, const PItem &probe, const v_outcome &pz, std::string *note) {
+    auto differs = [&](std::vector<PItem> seq) { seq.push_back(probe); v_outcome o = PR.query_seq(seq); return !eq(o, pz); };
+    if (differs(hist)) return "=";                                            // this history alone explains it
+    for (auto &q : g_poisons) if (differs({q})) { *note = "after validating '" + show(q.addr) + "' earlier in the process"; return ops_for({q, probe}); }
+    if (!differs(g_log)) return "";
+    size_t lo = 0, hi = g_log.size();                                          // smallest prefix of the log that changes the outcome
+    while (lo + 1 < hi) { size_t mid = (lo + hi) / 2; if (differs(std::vector<PItem>(g_log.begin(), g_log.begin() + mid))) hi = mid; else lo = mid; }
+    PItem q = g_log[hi - 1];
+    if (differs({q})) { g_poisons.push_back(q); *note = "after validating '" + show(q.addr) + "' earlier in the process"; return ops_for({q, probe}); }
+    if (hi <= 300) { std::vector<PItem> seq(g_log.begin(), g_log.begin() + hi); seq.push_back(probe); *note = "after the first " + std::to_string(hi) + " validations of this process"; return ops_for(seq); }
+    return "";
 }
 
 struct Stats { int isemail = 0; bool nontrivial = false; };
@@ -57,6 +91,7 @@ static std::optional<Failure> run_history(Run &R, const std::vector<Op> &ops, bo
         Obj o(A, 0x5A);
         // model
         int rfc_raw, tld, allow; A->obj_get(o.p, &rfc_raw, &tld, &allow);
+        std::vector<PItem> hist;
         int confirmed = -1; bool have_last = false, window_failed_setup = false, changed_since_last = false; v_outcome last; memset(&last, 0, sizeof last);
         for (size_t i = 0; i < ops.size() && !fail; i++) {
             const Op &op = ops[i];
@@ -75,8 +110,19 @@ static std::optional<Failure> run_history(Run &R, const std::vector<Op> &ops, bo
                 if (confirmed < 0) break; // precondition: a successful eav_setup since eav_init (manual)
                 v_outcome x = o.is_email(op.addr); R.eval();
                 v_outcome w = fresh(confirmed, tld, allow, op.addr); R.eval();
+                if (!eq(x, w)) { v_outcome w2 = fresh(confirmed, tld, allow, op.addr, true); if (!eq(x, w2)) w = w2; else w = w2; }   // a stale cache entry means process-wide state: left to the pristine comparison
                 if (!eq(x, w)) fail = Failure{"history-dependent-outcome", g_case, where + "eav_is_email('" + show(op.addr) + "') on the reused object -> " + outcome_str(x) + " but a fresh object with mode " +
                                               ref::MODE_NAME[confirmed] + ", tld_check=" + std::to_string(tld) + ", allow_tld=" + std::to_string(allow) + " -> " + outcome_str(w)};
+                PItem item{confirmed, tld, allow, op.addr};
+                if (!fail && PR.started()) {
+                    v_outcome pz = PR.query(confirmed, tld, allow, op.addr); R.eval();
+                    if (!eq(x, pz)) {
+                        std::string note = "after this history", cs = self_contained(hist, item, pz, &note);
+                        fail = Failure{"history-dependent-outcome", cs.empty() || cs == "=" ? g_case : cs, (cs.empty() || cs == "=" ? where : "last op of " + cs.substr(0, 300) + ": ") + "eav_is_email('" + show(op.addr) + "') " + note + " -> " + outcome_str(x) + " but in a process that has validated nothing before, a fresh object with mode " +
+                                       ref::MODE_NAME[confirmed] + ", tld_check=" + std::to_string(tld) + ", allow_tld=" + std::to_string(allow) + " -> " + outcome_str(pz) + " (state kept outside the eav_t)"};
+                    }
+                }
+                hist.push_back(item); log_item(item);
                 if (st) { st->isemail++; if (have_last && changed_since_last) st->nontrivial = true; }
                 last = x; have_last = true; window_failed_setup = false; changed_since_last = false;
             } break;
@@ -192,5 +238,5 @@ static void stage_random(Run &R) {
 int main(int argc, char **argv) {
     return std_main(argc, argv, "C13", {{"exhaustive", stage_exhaustive}, {"random", stage_random}},
         [](Run &R, const Case &c) { return run_history(R, dec(c.str()), true); }, [] { return g_case; },
-        [](Run &R) { return T.load(R.a.datadir); });
+        [](Run &R) { if (!PR.start(A)) { fprintf(stderr, "cannot start the pristine helper process\n"); return false; } return T.load(R.a.datadir); }, [] { PR.stop(); });
 }
